@@ -125,6 +125,7 @@ Lemma assign_cons : forall env t v f rest x,
   | v1 =>
       match unwrap v1 (is_nil_path rest) with
       | Some (isptr, u, VStruct n fs) =>
+          if isptr && is_any u then None else
           match lookup_field env n f with
           | Some (true, ft) =>
               option_map (fun a => rewrap isptr u (VStruct n (ains f a fs)))
@@ -148,20 +149,26 @@ Arguments assign_next : simpl never.
 Lemma assign_result_inst : forall env t v p x a, assign env t v p x = Some a -> instantiate a = a.
 Proof.
   intros env t v [|f rest] x a H; [discriminate|]. rewrite assign_cons in H.
-  destruct (any_enter t v) as [| | | |u o|ks e o]; simpl in H.
-  6: { destruct ks; simpl in H; [|discriminate]. destruct o; [|discriminate].
-       destruct (assign_next _ _ _ _ _ _); inversion H; reflexivity. }
-  all: try discriminate.
-  - destruct (lookup_field env n f) as [[[] ft]|]; try discriminate.
-    destruct (assign_next _ _ _ _ _ _); inversion H; reflexivity.
+  assert (Fin : forall isptr u n fs,
+            (if isptr && is_any u then None else
+             match lookup_field env n f with
+             | Some (true, ft) =>
+                 option_map (fun a0 => rewrap isptr u (VStruct n (ains f a0 fs)))
+                   (assign_next env ft (instantiate (field_of ft (aget f fs))) rest x
+                      (store_field ft (field_of ft (aget f fs)) x))
+             | _ => None
+             end) = Some a -> instantiate a = a).
+  { intros isptr u n fs H0. destruct (isptr && is_any u); [discriminate|].
+    destruct (lookup_field env n f) as [[[] ft]|]; try discriminate.
+    destruct (assign_next _ _ _ _ _ _); inversion H0. destruct isptr; reflexivity. }
+  destruct (any_enter t v) as [| | |n fs|u o|ks e o]; simpl in H; try discriminate.
+  - apply (Fin false TInt n fs). exact H.
   - destruct o as [w|].
-    + simpl in H. destruct w; try discriminate.
-      destruct (lookup_field env n f) as [[[] ft]|]; try discriminate.
-      destruct (assign_next _ _ _ _ _ _); inversion H; reflexivity.
+    + simpl in H. destruct w as [| | |n fs| |]; try discriminate. exact (Fin true u n fs H).
     + destruct (is_nil_path rest); simpl in H; [|discriminate].
-      destruct (zero u); try discriminate.
-      destruct (lookup_field env n f) as [[[] ft]|]; try discriminate.
-      destruct (assign_next _ _ _ _ _ _); inversion H; reflexivity.
+      destruct (zero u) as [| | |n fs| |] eqn:Ez; try discriminate. exact (Fin true u n fs H).
+  - destruct ks; simpl in H; [|discriminate]. destruct o; [|discriminate].
+    destruct (assign_next _ _ _ _ _ _); inversion H; reflexivity.
 Qed.
 
 Lemma obind_option_map_r : forall {A B C} (o : option A) (k : A -> option B) (h : B -> C),
@@ -186,6 +193,7 @@ Section StructStep.
   Variable n : N.
   Hypothesis Hre : forall v', any_enter t v' = v'.
   Hypothesis Hu : isptr = false -> u = TInt.
+  Hypothesis Hua : is_any u = false.                (* a pointer to an interface is never followed *)
 
   Definition sstep (fs : list (N * val)) (f : N) (rest : path) (x : val) : option val :=
     match lookup_field env n f with
@@ -201,7 +209,7 @@ Section StructStep.
   Proof.
     intros. rewrite assign_cons, Hre. unfold sstep.
     generalize Hu. destruct isptr; intro Hu'.
-    - reflexivity.
+    - simpl. rewrite Hua. reflexivity.
     - rewrite (Hu' eq_refl). reflexivity.
   Qed.
 
